@@ -373,6 +373,24 @@ func genC17(r *Run) {
 				}
 			}
 		}
+		if a.id == 17 {
+			// route lists ending in every way a list can end: 0..3 complete routes, then nothing, one more octet
+			// (a mask width: valid ones start a truncated route, 33..255 are no width at all), or a width and part
+			// of what must follow it
+			for k := 0; k <= 3; k++ {
+				var good []byte
+				for j := 0; j < k; j++ {
+					w := r.Pick(0, 1, 8, 9, 16, 24, 25, 32)
+					good = append(append(append(good, byte(w)), r.Bytes((w+7)/8)...), r.Bytes(4)...)
+				}
+				run(true, good)
+				for _, last := range []int{0, 1, 8, 24, 32, 33, 34, 64, 128, 255} {
+					run(true, append(append([]byte{}, good...), byte(last)))
+					run(true, append(append([]byte{}, good...), byte(last), 10))
+					run(true, append(append([]byte{}, good...), byte(last), 10, 2, 3, 4))
+				}
+			}
+		}
 		fills := r.N(4, 40)
 		for n := 0; n <= 64; n++ {
 			if n >= 6 {
